@@ -167,7 +167,29 @@ def run_rules(mir, res, cx):
                         # the tested value must change every iteration: it depends on a loop-carried counter
                         e = ex.operand(t["discr"])
                         dep = any(x.k == "cycle" or (x.k == "phi") for x in e.walk()) and "AddWithOverflow" in ce
-                        role = "fresh-name(contains)" if dep else "contains-without-progress"
+                        # the tested value itself must be recomputed inside the loop
+                        redefined = False
+                        for cc in calls:
+                            if (cc.rpath or "").endswith("HashSet::<T, S, A>::contains") and len(cc.args) == 2:
+                                from ..mir import borrow_root
+                                root, via = borrow_root(fn, cc.args[1])
+                                l = root["l"] if root is not None else None
+                                seen_l = set()
+                                while l is not None and l not in seen_l:
+                                    seen_l.add(l)
+                                    ds = fn.defs(l)
+                                    if any(d_[1] in body for d_ in ds):
+                                        redefined = True
+                                        break
+                                    # follow a single plain move/deref-call outside the loop
+                                    nxt = None
+                                    if len(ds) == 1 and ds[0][0] == "call":
+                                        c0 = fn.call_at(ds[0][1])
+                                        if c0.args and c0.args[0]["k"] in ("copy", "move") and (c0.rpath or "").endswith("::deref"):
+                                            r2, _ = borrow_root(fn, c0.args[0])
+                                            nxt = r2["l"] if r2 is not None else None
+                                    l = nxt
+                        role = "fresh-name(contains)" if (dep and redefined) else "contains-without-progress"
                     elif re.match(r"^\w+::\w+\(.*\)\.0$", ce) or re.match(r"^Not\(\w+::\w+\(.*\)\.0\)$", ce):
                         # boolean flag returned by a local step function
                         role = "fixpoint(change-flag)"
